@@ -64,6 +64,7 @@ package cdc
 //@   assert after @q.db.Update#2: [delete-transaction-leaves-the-head-alone] (outCh != nil ==> nextEv != nil) && (nextEv != nil ==> nextEv.Index >= nextFrom)
 //@   assert @send:req.respChan#3: [delete-moved-the-read-position-past-the-range] (result == nil && nextFrom != 0) ==> nextFrom > req.idx
 //@   assert @send:req.respChan#3: [head-still-valid-unless-deleted] (outCh != nil ==> nextEv != nil) && ((nextEv != nil && !(result == nil && deletedHead)) ==> nextEv.Index >= nextFrom)
+//@   assert after @set:nextFrom: [read-position-never-moves-back] nextFrom >= pre(nextFrom)
 //@   assert @send:outCh: [emits-the-loaded-head-in-increasing-order] nextEv != nil && nextEv.Index >= nextFrom
 //@   loop 1 invariant [head] (outCh != nil ==> nextEv != nil) && (nextEv != nil ==> nextEv.Index >= nextFrom)
 //
@@ -93,9 +94,10 @@ package cdc
 //@   assigns **
 //@   ensures [head] (outCh != nil ==> nextEv != nil) && (nextEv != nil ==> nextEv.Index >= nextFrom)
 //@ func (*Queue) run$advanceHead
-//@   requires [emitted] nextEv != nil
+//@   requires [emitted] nextEv != nil && nextEv.Index >= nextFrom
 //@   assigns **
 //@   ensures [moves-past-the-emitted-event] nextFrom == old(nextEv.Index) + 1
+//@   ensures [read-position-only-moves-forward] nextFrom > old(nextFrom)
 //@   ensures [head] (outCh != nil ==> nextEv != nil) && (nextEv != nil ==> nextEv.Index >= nextFrom)
 //
 // NewQueue: the manager goroutine starts from the max_key that is on disk (read in the same
